@@ -64,6 +64,19 @@ type fiatTr struct {
 	helpers  map[string]bool // callable pure helpers (same package) returning uint64
 	consts   map[string][]string
 	arrays   map[string]int // local arrays
+	// API mode (methods of the root package): nil guards, package-qualified callees, Bool/error results
+	api      bool
+	qual     map[string]string // imported package name -> Lean namespace of its translated functions
+	methods  map[string]*fiatSig // "Recv.Method" of the package being translated
+	guards   []apiGuard
+	retKind  string // "", "nat", "bool", "error"
+	optional map[string]bool
+}
+
+// apiGuard: `if x == nil [|| y == nil] { return E }` at the top of a method
+type apiGuard struct {
+	names []string
+	ret   ast.Expr
 }
 
 func (t *fiatTr) fail(n ast.Node, msg string) {
@@ -163,6 +176,9 @@ func (t *fiatTr) expr(e ast.Expr) string {
 		}
 		t.fail(e, "unary "+x.Op.String())
 	case *ast.BinaryExpr:
+		if t.api && x.Op == token.EQL {
+			return "decide (" + t.expr(x.X) + " = " + t.expr(x.Y) + ")"
+		}
 		if op, ok := fiatBin[x.Op]; ok {
 			return op + " " + atom(t.expr(x.X)) + " " + atom(t.expr(x.Y))
 		}
@@ -179,9 +195,14 @@ func (t *fiatTr) expr(e ast.Expr) string {
 		}
 		t.fail(e, "binary "+x.Op.String())
 	case *ast.CallExpr:
+		if t.api {
+			if v, ok := t.apiCallExpr(x); ok {
+				return v
+			}
+		}
 		if id, ok := x.Fun.(*ast.Ident); ok {
 			switch id.Name {
-			case "uint64", "uint1":
+			case "uint64", "uint1", "int":
 				// `type uint1 uint64`: both conversions are the identity on uint64 values.
 				if len(x.Args) != 1 {
 					t.fail(e, "conversion arity")
@@ -305,6 +326,13 @@ func (t *fiatTr) stmt(s ast.Stmt) {
 					default:
 						t.cur[nm.Name] = "0"
 					}
+				case *ast.SelectorExpr:
+					switch ty.Sel.Name {
+					case "MontgomeryDomainFieldElement", "NonMontgomeryDomainFieldElement":
+						t.arrays[nm.Name] = 4
+					default:
+						t.fail(s, "var type")
+					}
 				case *ast.ArrayType:
 					n, _ := strconv.Atoi(ty.Len.(*ast.BasicLit).Value)
 					t.arrays[nm.Name] = n
@@ -354,6 +382,17 @@ func (t *fiatTr) stmt(s ast.Stmt) {
 				}
 			}
 		}
+		if cl, ok := x.Rhs[0].(*ast.CompositeLit); ok && t.api {
+			id, ok := x.Lhs[0].(*ast.Ident)
+			if !ok || len(cl.Elts) != 4 {
+				t.fail(s, "composite literal")
+			}
+			t.arrays[id.Name] = 4
+			for j, el := range cl.Elts {
+				t.cur[fmt.Sprintf("%s[%d]", id.Name, j)] = t.expr(el)
+			}
+			return
+		}
 		switch x.Tok {
 		case token.DEFINE, token.ASSIGN:
 			t.assignTo(x.Lhs[0], t.expr(x.Rhs[0]), s)
@@ -375,6 +414,11 @@ func (t *fiatTr) stmt(s ast.Stmt) {
 				return
 			}
 		}
+		if t.api {
+			if t.apiCallStmt(call, s) {
+				return
+			}
+		}
 		if !ok || id.Name != "cmovznzU64" || len(call.Args) != 4 {
 			t.fail(s, "call statement")
 		}
@@ -384,9 +428,49 @@ func (t *fiatTr) stmt(s ast.Stmt) {
 		}
 		v := "cmovznzU64 " + atom(t.expr(call.Args[1])) + " " + atom(t.expr(call.Args[2])) + " " + atom(t.expr(call.Args[3]))
 		t.assignTo(ad.X, v, s)
+	case *ast.IfStmt:
+		if !t.api || x.Init != nil || x.Else != nil || len(x.Body.List) != 1 || len(t.lines) != 0 {
+			t.fail(s, "if statement")
+		}
+		rs, ok := x.Body.List[0].(*ast.ReturnStmt)
+		if !ok || len(rs.Results) != 1 {
+			t.fail(s, "guard body")
+		}
+		var names []string
+		var collect func(e ast.Expr)
+		collect = func(e ast.Expr) {
+			if b, ok := e.(*ast.BinaryExpr); ok {
+				if b.Op == token.LOR {
+					collect(b.X)
+					collect(b.Y)
+					return
+				}
+				if b.Op == token.EQL {
+					if id, ok := b.X.(*ast.Ident); ok {
+						if nl, ok := b.Y.(*ast.Ident); ok && nl.Name == "nil" {
+							if p, ok := t.pmap[id.Name]; ok && p.isPtr {
+								names = append(names, id.Name)
+								return
+							}
+						}
+					}
+				}
+			}
+			t.fail(s, "guard condition")
+		}
+		collect(x.Cond)
+		for _, n := range names {
+			t.optional[n] = true
+		}
+		t.guards = append(t.guards, apiGuard{names: names, ret: rs.Results[0]})
 	case *ast.ReturnStmt:
 		if len(x.Results) == 0 {
 			return
+		}
+		if t.api && len(x.Results) == 1 {
+			if t.apiReturn(x.Results[0], s) {
+				return
+			}
 		}
 		if len(x.Results) != 1 {
 			t.fail(s, "return arity")
@@ -461,6 +545,29 @@ func (t *fiatTr) arrayValue(base string, n int, node ast.Node) string {
 // callStmt: `F(a0, a1, …)` where F is an already translated function of the same package. Inputs are read first
 // (the callee itself refuses reads after its first write), then every written pointer parameter of F is rebound.
 func (t *fiatTr) callStmt(call *ast.CallExpr, sg *fiatSig, node ast.Node) {
+	t.invoke(sg.lean, sg, call.Args, node, true)
+}
+
+// arrayArg: an n-limb argument as a Lean term: a location, or (API mode) a constant such as `scalar.One()`
+func (t *fiatTr) arrayArg(e ast.Expr, n int, node ast.Node) string {
+	if base := t.locOf(e); base != "" {
+		return t.arrayValue(base, n, node)
+	}
+	if c, ok := e.(*ast.CallExpr); ok && len(c.Args) == 0 {
+		if sel, ok := c.Fun.(*ast.SelectorExpr); ok {
+			if pk, ok := sel.X.(*ast.Ident); ok && t.qual[pk.Name] != "" {
+				return t.qual[pk.Name] + "." + lname(sel.Sel.Name) + "Const"
+			}
+		}
+	}
+	t.fail(node, "array argument is not a location")
+	return ""
+}
+
+// invoke emits a call of a translated function. With bind=true the written pointer parameters are rebound and ""
+// is returned; with bind=false the callee must be pure (no written parameter) and the Lean term is returned.
+func (t *fiatTr) invoke(lean string, sg *fiatSig, callArgs []ast.Expr, node ast.Node, bind bool) string {
+	call := struct{ Args []ast.Expr }{callArgs}
 	if len(call.Args) != len(sg.params) {
 		t.fail(node, "call arity")
 	}
@@ -470,11 +577,7 @@ func (t *fiatTr) callStmt(call *ast.CallExpr, sg *fiatSig, node ast.Node) {
 			continue
 		}
 		if (p.isPtr || p.arrayVal) && p.n > 0 {
-			base := t.locOf(call.Args[i])
-			if base == "" {
-				t.fail(node, "array argument is not a location")
-			}
-			ins = append(ins, atom(t.arrayValue(base, p.n, node)))
+			ins = append(ins, atom(t.arrayArg(call.Args[i], p.n, node)))
 		} else if p.isPtr {
 			base := t.locOf(call.Args[i])
 			if base == "" {
@@ -489,9 +592,18 @@ func (t *fiatTr) callStmt(call *ast.CallExpr, sg *fiatSig, node ast.Node) {
 			ins = append(ins, atom(t.expr(call.Args[i])))
 		}
 	}
+	term := strings.TrimSpace(lean + " " + strings.Join(ins, " "))
+	if !bind {
+		for i := range sg.params {
+			if sg.output[i] {
+				t.fail(node, "call with side effects used as an expression")
+			}
+		}
+		return term
+	}
 	t.np++
 	r := fmt.Sprintf("c%d", t.np)
-	t.emit(r, strings.TrimSpace(sg.lean+" "+strings.Join(ins, " ")))
+	t.emit(r, term)
 	nout := 0
 	for i := range sg.params {
 		if sg.output[i] {
@@ -549,6 +661,7 @@ func (t *fiatTr) callStmt(call *ast.CallExpr, sg *fiatSig, node ast.Node) {
 			}
 		}
 	}
+	return ""
 }
 
 // translateFiat emits one Lean definition for fn.
@@ -557,10 +670,30 @@ func translateFiat(fset *token.FileSet, pkg string, fn *ast.FuncDecl, helpers ma
 }
 
 func translateFiatAs(fset *token.FileSet, pkg string, fn *ast.FuncDecl, helpers map[string]bool, consts map[string][]string, leanName string) string {
-	t := &fiatTr{fset: fset, pkg: pkg, fname: fn.Name.Name, pmap: map[string]*fiatParam{}, cur: map[string]string{},
+	return translateWith(fset, pkg, fn, helpers, consts, leanName, nil)
+}
+
+// apiCtx switches the translator to API mode (methods of the root package)
+type apiCtx struct {
+	qual    map[string]string
+	methods map[string]*fiatSig
+	recv    string
+}
+
+func translateWith(fset *token.FileSet, pkg string, fn *ast.FuncDecl, helpers map[string]bool, consts map[string][]string, leanName string, api *apiCtx) string {
+	t := &fiatTr{optional: map[string]bool{},fset: fset, pkg: pkg, fname: fn.Name.Name, pmap: map[string]*fiatParam{}, cur: map[string]string{},
 		written: map[string]bool{}, helpers: helpers, consts: map[string][]string{}, arrays: map[string]int{}}
 	for k, v := range consts {
 		t.consts[k] = v
+	}
+	if api != nil {
+		t.api, t.qual, t.methods = true, api.qual, api.methods
+		if fn.Type.Results != nil && len(fn.Type.Results.List) == 1 {
+			switch ty := fn.Type.Results.List[0].Type.(type) {
+			case *ast.Ident:
+				t.retKind = map[string]string{"int": "nat", "uint64": "nat", "bool": "bool", "error": "error"}[ty.Name]
+			}
+		}
 	}
 	arrLen := func(e ast.Expr) (int, bool) {
 		switch y := e.(type) {
@@ -658,7 +791,7 @@ func translateFiatAs(fset *token.FileSet, pkg string, fn *ast.FuncDecl, helpers 
 	}
 	if t.ret != "" {
 		outs = append(outs, t.ret)
-		tys = append(tys, "Nat")
+		tys = append(tys, map[string]string{"": "Nat", "nat": "Nat", "bool": "Bool", "error": "Option String"}[t.retKind])
 	}
 	if len(outs) == 0 {
 		t.fail(fn, "function has no output")
@@ -682,8 +815,45 @@ func translateFiatAs(fset *token.FileSet, pkg string, fn *ast.FuncDecl, helpers 
 		}
 		fiatSigs[pkg][fn.Name.Name] = fs
 	}
+	if api != nil {
+		key := fn.Name.Name
+		if fn.Recv != nil {
+			key = api.recv + "." + key
+		}
+		api.methods[key] = fs
+	}
+	for i := range sig2 {
+		for n := range t.optional {
+			if strings.HasPrefix(sig2[i], "("+n+" : L") {
+				sig2[i] = "(" + n + " : Option " + sig2[i][len(n)+4:]
+			}
+		}
+	}
 	var b strings.Builder
 	fmt.Fprintf(&b, "def %s %s : %s :=\n", leanName, strings.Join(sig2, " "), strings.Join(tys, " × "))
+	if len(t.guards) > 1 {
+		t.fail(fn, "more than one nil guard")
+	}
+	if len(t.guards) == 1 {
+		g := t.guards[0]
+		early := t.earlyValue(g, fn)
+		var somes, wild []string
+		for _, n := range g.names {
+			somes = append(somes, "some "+n)
+			wild = append(wild, "_")
+		}
+		fmt.Fprintf(&b, "  match %s with\n  | %s =>\n", strings.Join(g.names, ", "), strings.Join(somes, ", "))
+		for _, l := range t.lines {
+			b.WriteString("  " + l + "\n")
+		}
+		if len(outs) == 1 {
+			b.WriteString("    " + outs[0] + "\n")
+		} else {
+			b.WriteString("    (" + strings.Join(outs, ", ") + ")\n")
+		}
+		fmt.Fprintf(&b, "  | %s => %s\n", strings.Join(wild, ", "), early)
+		return b.String()
+	}
 	for _, l := range t.lines {
 		b.WriteString(l + "\n")
 	}
@@ -697,6 +867,9 @@ func translateFiatAs(fset *token.FileSet, pkg string, fn *ast.FuncDecl, helpers 
 
 // paramRead reports whether the initial content of pointer param p can reach any emitted line or output.
 func (t *fiatTr) paramRead(p fiatParam) bool {
+	if len(t.guards) > 0 && p.isPtr && p.n > 0 {
+		return true // the early branch of a nil guard returns the parameter as it was
+	}
 	pat := p.name + ".l"
 	if p.n == 0 {
 		pat = p.name
@@ -707,7 +880,7 @@ func (t *fiatTr) paramRead(p fiatParam) bool {
 			if p.n == 0 && tok == pat {
 				return true
 			}
-			if p.n > 0 && strings.HasPrefix(tok, pat) {
+			if p.n > 0 && (strings.HasPrefix(tok, pat) || tok == p.name) {
 				return true
 			}
 		}
